@@ -396,8 +396,11 @@ class NetworkService(ModelElement):
         """
         assert name is not None
 
-        # check uniqueness
-        all_names = [n.name for n in self._interfaces]
+        # check uniqueness against the model, not this handle's list: another handle of the
+        # same service may have added interfaces since this one was created
+        model_ids = self.topo.graph_model.get_all_ns_or_link_connection_points(link_id=self.node_id)
+        all_names = [self.topo.graph_model.get_node_properties(node_id=i)[1][ABCPropertyGraph.PROP_NAME]
+                     for i in model_ids]
         if name in all_names:
             raise TopologyException(f'Interface {name} is not unique within a network service')
         iff = Interface(name=name, node_id=node_id, parent_node_id=self.node_id,
